@@ -113,23 +113,31 @@ class SeqV(V):
     """A list of symbolic length: z3 array Int -> elem and a length term. Mutable holder."""
     kind = "list"
 
-    def __init__(self, arr: Any, n: Any, et: ElemType, off: Any = 0) -> None:
+    def __init__(self, arr: Any, n: Any, et: ElemType, off: Any = 0, fn: Any = None) -> None:
         self.arr, self.n, self.et, self.off = arr, n, et, off
+        self.fn = fn      # function-backed sequence (ghost values): index term -> element term; arr is None
 
     def sel(self, index: Any) -> Any:
         """element term at position index (views share the base array at an offset)"""
+        if self.fn is not None:
+            return self.fn(index if (isinstance(self.off, int) and self.off == 0) else z3.simplify(index + self.off))
         if isinstance(self.off, int) and self.off == 0:
             return z3.Select(self.arr, index)
         return z3.Select(self.arr, z3.simplify(index + self.off))
 
     def put(self, index: Any, term: Any) -> None:
+        if self.fn is not None:
+            old, off = self.fn, self.off
+            pos = index if (isinstance(off, int) and off == 0) else z3.simplify(index + off)
+            self.fn = lambda i, old=old, pos=pos, term=term: z3.If(i == pos, term, old(i))
+            return
         if isinstance(self.off, int) and self.off == 0:
             self.arr = z3.Store(self.arr, index, term)
         else:
             self.arr = z3.Store(self.arr, z3.simplify(index + self.off), term)
 
     def clone(self) -> "SeqV":
-        return SeqV(self.arr, self.n, self.et, self.off)
+        return SeqV(self.arr, self.n, self.et, self.off, self.fn)
 
     def __repr__(self) -> str:
         return f"SeqV(len={self.n})"
